@@ -99,8 +99,8 @@ def r1_sufficiency(chk: Check):
             "host_gpu.match(req_gpu)": ("gpu_mismatch", False),
             "len(self.cuda_gpus) < host.min_gpu": ("few_gpus", True),
             "host.cpu < self.cpu": ("cpu_short", True),
-            "host.max_duration > 0": ("limit", True),
-            "self.duration > host.max_duration": ("too_long", True),
+            "0 < host.max_duration": ("limit", True),
+            "host.max_duration < self.duration": ("too_long", True),
         }
         return table.get(t)
 
@@ -342,7 +342,7 @@ def r4_order(chk: Check):
     ok = len(loops) == 1 and src(loops[0].ast.iter) == "self.requirements"
     chk.require(ok, chk.fkey(f, "iterates as given"), "RequirementUnion.match must try the alternatives in the given order", chk.loc(f.module, f.node))
     upd = [n for n in g.live if n.kind == "stmt" and isinstance(n.ast, ast.Assign) and src(n.ast.targets[0]) == "argmax" and not (isinstance(n.ast.value, ast.Constant))]
-    ok = len(upd) == 1 and any(src(t.ast) == "match.score > max_score" and pol is True for t, pol in g.guards(upd[0]) if t.kind == "test")
+    ok = len(upd) == 1 and any(src(t.ast) == "max_score < match.score" and pol is True for t, pol in g.guards(upd[0]) if t.kind == "test")
     chk.require(ok, chk.fkey(f, "strictly greater"), "the incumbent alternative may only be replaced by a strictly better one (ties keep the earlier alternative)", chk.loc(f.module, f.node))
     ru = tree.func("launcherfinder.specs", "RequirementUnion.__init__")
     chk.require("self.requirements = list(requirements)" in src(ru.node), chk.fkey(ru, "keeps order"), "RequirementUnion must keep its alternatives in the given order", chk.loc(ru.module, ru.node))
